@@ -612,6 +612,23 @@ def fam_reentrant(g, prefix, n_random):
             out.append(case("%s-%d" % (prefix, i), steps)); i += 1
     return out
 
+def fam_reentrant_values(g, prefix, draws=2):
+    """single-source operators over a hot subject whose subscriber pushes a further item into (or ends) that subject from
+    INSIDE its next callback: the operator's state (flags, counters, last value, latest key) must already be updated
+    when it calls downstream.  Values straddle the predicates / repeat the previous item."""
+    out = []
+    i = 0
+    for d in range(draws):
+        ops = dict(g.ops_int()); ops.update(g.ops_final())
+        for name in sorted(ops):
+            for idx in ("0", "1"):
+                for act in ([["hnext", "a", v] for v in ("0", "1", "2", "3")] + [["hcomplete", "a"], ["herror", "a", "6"]]):
+                    g.tag = 0
+                    steps = [["subject", "a", "plain"], ["sub", ops[name](["ref", "a"]), ["react", [idx, act]]],
+                             ["hnext", "a", "1"], ["hnext", "a", "2"], ["hnext", "a", "2"], ["hnext", "a", "3"], ["hcomplete", "a"]]
+                    out.append(case("%s-%d" % (prefix, i), steps)); i += 1
+    return out
+
 def fam_teardown(g, prefix, n_random):
     """every terminating cause of C06 over probed sources (long cold scripts, repeat, subjects)"""
     out = []
